@@ -64,11 +64,16 @@ Proof.
 Qed.
 
 Theorem no_new_raise_run : forall t1 t2 r,
-  run_optF udiff ops c no_opts t1 t2 = Ok r ->
-  safe F t1 = true -> safe F t2 = true -> exists r', run_optF udiff ops c F t1 t2 = Ok r'.
+  run_optF udiff ops c no_opts t1 t2 = Ok r -> exists r', run_optF udiff ops c F t1 t2 = Ok r'.
 Proof.
-  intros t1 t2 r _ S1 S2. unfold run_optF.
-  destruct (safe_no_raise F c udiff ops t1 t2 [] [] S1 S2) as [x E]. rewrite E. cbn. eexists; reflexivity.
+  intros t1 t2 r _. unfold run_optF.
+  destruct (never_raises F c udiff ops t1 t2 [] []) as [x E]. rewrite E. cbn. eexists; reflexivity.
+Qed.
+
+Theorem never_raises_run : forall t1 t2, exists r, run_optF udiff ops c F t1 t2 = Ok r.
+Proof.
+  intros t1 t2. unfold run_optF.
+  destruct (never_raises F c udiff ops t1 t2 [] []) as [x E]. rewrite E. cbn. eexists; reflexivity.
 Qed.
 
 (* ---- a positional copy altered by the code-following atom relations is [alt] ---- *)
